@@ -112,7 +112,7 @@ def tlc(module, cfg, wd, workers=None, extra=None, env=None, timeout=1800, xmx="
 
 
 RE_STATS = re.compile(r"(\d+) states generated, (\d+) distinct states found")
-RE_PRINT = re.compile(r'^<<"([A-Za-z0-9_-]+)", (.*)>>$')
+RE_PRINT = re.compile(r'^"@@')
 
 
 def tlc_stats(out):
@@ -141,11 +141,28 @@ def tlc_error_text(out):
 
 
 def prints(out, tag=None):
-    """Tuples printed by PrintT(<<"TAG", ...>>): yields (tag, rest-of-line)."""
+    """Lines printed by the specifications with PrintT("@@TAG|..."): TLC prints a string value on one
+    line as a quoted literal (tuples get wrapped, which is why everything is a single string).
+    Yields (tag, rest)."""
     for line in out.splitlines():
-        m = RE_PRINT.match(line.strip())
-        if m and (tag is None or m.group(1) == tag):
-            yield m.group(1), m.group(2)
+        if not line.startswith('"@@'):
+            continue
+        try:
+            txt = json.loads(line)
+        except Exception:
+            # TLC's escaping is JSON compatible for what the specs print; be lenient otherwise
+            txt = line[1:-1].replace('\\"', '"').replace("\\\\", "\\")
+        t, _, rest = txt[2:].partition("|")
+        if tag is None or t == tag:
+            yield t, rest
+
+
+def event_prints(out, tag=None):
+    """(tag, event line number, text) for lines "@@TAG|<l>|<text>"."""
+    for t, rest in prints(out, tag):
+        n, _, txt = rest.partition("|")
+        if n.isdigit():
+            yield t, int(n), txt
 
 
 def coverage_counts(out):
@@ -188,11 +205,7 @@ def tlc_emit(module, cfg, wd, tag="REPLAY", workers=1, timeout=900, extra=None, 
     res = []
     seen = set()
     for _, rest in prints(out, tag):
-        # rest is a TLA+ string literal holding JSON
-        try:
-            s = json.loads(rest)  # TLA+ string escaping is JSON compatible for our payloads
-        except Exception:
-            continue
+        s = rest
         if s in seen:
             continue
         seen.add(s)
@@ -263,20 +276,17 @@ def validate(trace_path, module, cfg, wd, n_lines, tags, workers=None, timeout=3
             out = fu.result()
             fixed = []
             for line in out.splitlines():
-                m = RE_PRINT.match(line.strip())
-                if m:
-                    m2 = re.match(r"(\d+), (.*)$", m.group(2))
-                    if m2:
-                        ln = int(m2.group(1)) + base
-                        fixed.append('<<"%s", %d, %s>>' % (m.group(1), ln, m2.group(2)))
-                        if m.group(1) in tags:
-                            why = m2.group(2)
-                            try:
-                                why = json.loads(why)
-                            except Exception:
-                                pass
-                            res[ln] = (m.group(1), why)
-                        continue
+                if line.startswith('"@@'):
+                    for t, rest in prints(line):
+                        n, _, txt = rest.partition("|")
+                        if n.isdigit():
+                            ln = int(n) + base
+                            fixed.append(json.dumps("@@%s|%d|%s" % (t, ln, txt)))
+                            if t in tags:
+                                res[ln] = (t, txt)
+                        else:
+                            fixed.append(line)
+                    continue
                 fixed.append(line)
             outs.append("\n".join(fixed))
             if pth != trace_path:
@@ -462,5 +472,5 @@ class Run:
         if rc == 0:
             shutil.rmtree(self.wd, ignore_errors=True)
         log("[%s] %s: %d violation(s), %d evaluations, %d model states, %.1fs" % (
-            self.pid, self.tier, len(real), self.cov["evaluations"], self.cov["states"], time.time() - self.t0))
+            self.pid, self.tier, len(real), self.cov["evaluations"], self.cov.get("states", 0), time.time() - self.t0))
         return rc
